@@ -12,8 +12,9 @@ import UVerif.Model.TextCore
 namespace UVerif.Text
 
 /-- number of hexits `to_hex` prints for a `bitblock<nbits>`, `nbits ≥ 4`:
-    `(nbits >> 2) + (nbits % 4 ? 0 : 1)` — as written (one too many when `4 ∣ nbits`, too few otherwise). -/
-def positNrHexits (nbits : Nat) : Nat := (nbits >>> 2) + (if nbits % 4 ≠ 0 then 0 else 1)
+    `(nbits >> 2) + (nbits % 4 ? 1 : 0)` = ⌈nbits/4⌉ (as repaired by "fix: bitblock to_hex must print
+    ceil(nbits/4) hexits"; the pinned tree had the two arms of the conditional swapped, D18). -/
+def positNrHexits (nbits : Nat) : Nat := (nbits >>> 2) + (if nbits % 4 ≠ 0 then 1 else 0)
 
 /-- `to_hex(bitblock<nbits>)` with default arguments: `"0x"` + hexits, lower case. -/
 def positToHex (nbits v : Nat) : List Char :=
